@@ -1201,6 +1201,41 @@ func (up4 *UP4) configureMeters(qers []qer) error {
 	return nil
 }
 
+// updateMeters rewrites the meter cells of QERs that already have a P4 meter with the
+// configuration of their current rates. The cells stay the same, so nothing that refers
+// to them needs to change.
+func (up4 *UP4) updateMeters(qers []qer) error {
+	for _, q := range qers {
+		p4Meter, exists := up4.meters[meterID{
+			qerID: q.qerID,
+			fseid: q.fseID,
+		}]
+		if !exists {
+			continue
+		}
+
+		p4MeterID := p4constants.MeterPreQosPipeAppMeter
+		if p4Meter.meterType == meterTypeSession {
+			p4MeterID = p4constants.MeterPreQosPipeSessionMeter
+		}
+
+		entries := []*p4.MeterEntry{
+			up4.p4RtTranslator.BuildMeterEntry(p4MeterID, p4Meter.uplinkCellID, getMeterConfigurationFromQER(q.ulMbr, q.ulGbr)),
+		}
+
+		if p4Meter.downlinkCellID != p4Meter.uplinkCellID {
+			entries = append(entries,
+				up4.p4RtTranslator.BuildMeterEntry(p4MeterID, p4Meter.downlinkCellID, getMeterConfigurationFromQER(q.dlMbr, q.dlGbr)))
+		}
+
+		if err := up4.p4client.ApplyMeterEntries(p4.Update_MODIFY, entries...); err != nil {
+			return ErrOperationFailedWithReason("update P4 Meter from QER", err.Error())
+		}
+	}
+
+	return nil
+}
+
 func verifyPDR(pdr pdr) error {
 	// The applications table has ternary and range fields, so its entries need a non-zero
 	// priority; priority is 65535 - precedence, which leaves 0..65534 for the precedence.
@@ -1565,6 +1600,12 @@ func (up4 *UP4) sendUpdate(all PacketForwardingRules, updated PacketForwardingRu
 	}
 
 	if err := up4.updateTunnelPeersBasedOnFARs(updated.fars); err != nil {
+		restoreMappings()
+		return err
+	}
+
+	// Update QER IE might modify the rates of meters that are already configured
+	if err := up4.updateMeters(updated.qers); err != nil {
 		restoreMappings()
 		return err
 	}
